@@ -19,6 +19,8 @@ type Plan struct {
 	ReadChunk   int   // >0: reads return at most this many bytes
 	ZeroReads   []int // indexes of Read calls that return (0, nil)
 	ReadErrAt   int64 // >=0: Read fails with EIO once the offset reaches this byte
+	ReadErrOnce bool  // the read error is transient: it is returned by one Read call, later reads of the same bytes succeed
+	readErrDone bool
 	OpenErr     error // Open/OpenFile fails
 	SeekErr     bool  // Seek fails
 	WriteErrAt  int64 // >=0: Write fails with WriteErr after this many bytes were written (short write before)
@@ -26,6 +28,13 @@ type Plan struct {
 	ShortWrites int // >0: each Write writes at most this many bytes then returns io.ErrShortWrite... (n < len, err != nil)
 	CloseErr    error
 	Delay       time.Duration // each I/O call sleeps (slow disk)
+}
+
+func (p *Plan) readErrKind() string {
+	if p.ReadErrOnce {
+		return "read-eio-transient"
+	}
+	return "read-eio"
 }
 
 func NoPlan() Plan { return Plan{ReadErrAt: -1, WriteErrAt: -1} }
@@ -150,8 +159,13 @@ func (fl *File) Read(b []byte) (int, error) {
 			return 0, nil
 		}
 	}
-	if p.ReadErrAt >= 0 && fl.roff >= p.ReadErrAt {
-		fl.fs.fire("read-eio")
+	errAt := p.ReadErrAt
+	if p.ReadErrOnce && p.readErrDone {
+		errAt = -1
+	}
+	if errAt >= 0 && fl.roff >= errAt {
+		fl.fs.fire(p.readErrKind())
+		p.readErrDone = true
 		return 0, &os.PathError{Op: "read", Path: fl.name, Err: syscall.EIO}
 	}
 	lim := len(b)
@@ -159,11 +173,12 @@ func (fl *File) Read(b []byte) (int, error) {
 		lim = p.ReadChunk
 		fl.fs.fire("short-read")
 	}
-	if p.ReadErrAt >= 0 && fl.roff+int64(lim) > p.ReadErrAt {
-		lim = int(p.ReadErrAt - fl.roff)
+	if errAt >= 0 && fl.roff+int64(lim) > errAt {
+		lim = int(errAt - fl.roff)
 	}
 	if lim == 0 && len(b) > 0 {
-		fl.fs.fire("read-eio")
+		fl.fs.fire(p.readErrKind())
+		p.readErrDone = true
 		return 0, &os.PathError{Op: "read", Path: fl.name, Err: syscall.EIO}
 	}
 	n, err := fl.File.Read(b[:lim])
